@@ -322,3 +322,52 @@ func TestChannels(t *testing.T) {
 		t.Fatalf("channel outcomes %v", o)
 	}
 }
+
+// Exclusive-use tracking: two threads writing one map without a lock meet at their scheduling
+// points in some schedule (and only with one preemption); under a common mutex they never do.
+func TestTouchFindsUnsynchronisedMapWrites(t *testing.T) {
+	run := func(bound int, locked bool) (races int) {
+		var m map[string]int
+		var mu Mutex
+		body := func() {
+			m = map[string]int{}
+			writer := func(k string) func() {
+				return func() {
+					if locked {
+						mu.Lock()
+						defer mu.Unlock()
+					}
+					TouchY("t.go", 1, Acc{Obj: func() interface{} { return m }, Write: true, What: "write to map m"})
+					m[k] = 1
+				}
+			}
+			var wg WaitGroup
+			wg.Add(2)
+			Go(func() { defer wg.Done(); writer("a")() })
+			Go(func() { defer wg.Done(); writer("b")() })
+			wg.Wait()
+		}
+		st := Explore(ExploreOpt{Bound: bound, Run: Options{YieldFiles: []string{"t.go"}, Drain: true}}, body, func(s *Sched) bool {
+			if s.Panic != nil {
+				if !strings.Contains(fmt.Sprint(s.Panic), "vsched: unsynchronised write to map m") {
+					t.Fatalf("unexpected panic: %v", s.Panic)
+				}
+				races++
+			}
+			return true
+		})
+		if !st.Complete {
+			t.Fatalf("exploration stopped: %s", st.Stopped)
+		}
+		return races
+	}
+	if n := run(0, false); n != 0 {
+		t.Errorf("bound 0: %d schedules report the race, expected none (it needs a preemption)", n)
+	}
+	if n := run(1, false); n == 0 {
+		t.Errorf("bound 1: the unsynchronised writes were never seen together")
+	}
+	if n := run(2, true); n != 0 {
+		t.Errorf("writes under one mutex reported as a race in %d schedules", n)
+	}
+}
